@@ -247,3 +247,87 @@ func (op *engOp) after(o *Out, sol nextroute.Solution, ok bool) {
 		"eng "+b01(ok)+" same")
 	o.Count("eng-correspondence:ok=" + strconv.FormatBool(ok))
 }
+
+// ---------------------------------------------------------------------------------------------- no-mix (NR.Mix)
+
+func mixItemOf(c nextroute.NoMixConstraint, ins, rem map[nextroute.ModelStop]nextroute.MixItem, st nextroute.ModelStop) string {
+	if it, ok := ins[st]; ok {
+		return fmt.Sprintf("i:%s:%d", it.Name, it.Quantity)
+	}
+	if it, ok := rem[st]; ok {
+		return fmt.Sprintf("r:%s:%d", it.Name, it.Quantity)
+	}
+	return "n"
+}
+
+func noMixConstraints(model nextroute.Model) []nextroute.NoMixConstraint {
+	var out []nextroute.NoMixConstraint
+	for _, c := range model.Constraints() {
+		if nm, ok := c.(nextroute.NoMixConstraint); ok {
+			out = append(out, nm)
+		}
+	}
+	return out
+}
+
+// mixStates: for every no-mix constraint and vehicle with at least one item on its route, the items of the route and
+// what the code says is on board after every stop (`mix st` lines, NR.Mix.upd).
+func mixStates(o *Out, sol nextroute.Solution) {
+	for _, c := range noMixConstraints(sol.Model()) {
+		ins, rem := c.Insert(), c.Remove()
+		for _, v := range sol.Vehicles() {
+			stops := v.SolutionStops()
+			if len(stops) <= 2 {
+				continue
+			}
+			var items, vals []string
+			any := false
+			for _, st := range stops[1 : len(stops)-1] {
+				it := mixItemOf(c, ins, rem, st.ModelStop())
+				if it != "n" {
+					any = true
+				}
+				items = append(items, it)
+				val := c.Value(st)
+				nm := val.Name
+				if val.Quantity == 0 {
+					nm = ""
+				}
+				vals = append(vals, fmt.Sprintf("%s:%d", nm, val.Quantity))
+			}
+			if !any {
+				continue
+			}
+			o.Op("mix st "+strings.Join(items, ","), "mix st "+strings.Join(vals, ","))
+			o.Count("mix-state-lines")
+		}
+	}
+}
+
+// mixEst: the no-mix estimate of a move against NR.Mix.est on the same placement.
+func mixEst(o *Out, rec *recorder, mv nextroute.SolutionMoveStops, v nextroute.SolutionVehicle, gaps []int) {
+	for i := range rec.ests {
+		ev := &rec.ests[i]
+		c, ok := ev.Constraint.(nextroute.NoMixConstraint)
+		if !ok || ev.Move != nextroute.SolutionMove(mv) {
+			continue
+		}
+		ins, rem := c.Insert(), c.Remove()
+		var old, xs []string
+		stops := v.SolutionStops()
+		for _, st := range stops[1 : len(stops)-1] {
+			old = append(old, mixItemOf(c, ins, rem, st.ModelStop()))
+		}
+		var gs []int
+		for k, sp := range mv.StopPositions() {
+			xs = append(xs, mixItemOf(c, ins, rem, sp.Stop().ModelStop()))
+			gs = append(gs, gaps[k]-1) // gaps[k] = position of the next planned stop; in front of it: gaps[k]-1 planned stops
+		}
+		olds := "-"
+		if len(old) > 0 {
+			olds = strings.Join(old, ",")
+		}
+		o.Op(fmt.Sprintf("mix est %s %s %s", olds, strings.Join(xs, ","), csvI(gs)), "mix est "+b01(ev.Violated))
+		o.Count("est-correspondence:no-mix")
+	}
+}
